@@ -338,6 +338,7 @@ fn execute(scn: &BScn, property: &str) -> RunOutcome {
                     BOp::Reset => {
                         e.get_mut::<Animator<Target>>().unwrap().reset();
                     }
+                    BOp::PauseTime(_) | BOp::TimeSpeed(_) => {}
                     BOp::SetTimeline { tl, reset, start_with } => {
                         let comp = e.get::<Target>().unwrap().clone();
                         let mut t = build_target_merged(&cfg.tls[*tl]);
@@ -356,7 +357,12 @@ fn execute(scn: &BScn, property: &str) -> RunOutcome {
             if let Err(p) = r {
                 bail_panic!(p, fi, format!("{op:?}"));
             }
+            if matches!(op, BOp::PauseTime(_) | BOp::TimeSpeed(_)) {
+                w.apply_time_op(op);
+                out.count("op.app_clock_pause_or_speed");
+            }
             match op {
+                BOp::PauseTime(_) | BOp::TimeSpeed(_) => {}
                 BOp::SetKey(k) => {
                     user_set_key = true;
                     out.count("op.set_key");
@@ -410,16 +416,23 @@ fn execute(scn: &BScn, property: &str) -> RunOutcome {
         if user_set_key && !user_changed_key {
             out.count("probe.same_key_reassigned");
         }
-        let delta = Duration::from_nanos(frame.delta_ns);
+        let raw_delta = Duration::from_nanos(frame.delta_ns);
         if frame.delta_ns >= 1_000_000_000_000 {
-            out.astro_seconds += delta.as_secs_f64();
+            out.astro_seconds += raw_delta.as_secs_f64();
         } else {
-            out.sim_seconds += delta.as_secs_f64();
+            out.sim_seconds += raw_delta.as_secs_f64();
         }
 
         // ---- the frame ------------------------------------------------------------------------
-        if let Err(p) = catch(|| w.frame(delta)) {
-            bail_panic!(p, fi, format!("App::update (frame {fi}, delta {delta:?})"));
+        // `delta` is the frame's delta as the app clock reports it (Time::delta): it is what the
+        // property calls "each frame's delta" and differs from the wall-clock delta while the
+        // app clock is paused or scaled
+        let delta = match catch(|| w.frame(raw_delta)) {
+            Ok(d) => d,
+            Err(p) => bail_panic!(p, fi, format!("App::update (frame {fi}, wall-clock delta {raw_delta:?})")),
+        };
+        if delta != raw_delta {
+            out.count("probe.app_clock_delta_differs_from_wall_clock");
         }
         let after = snap(&w);
         hash_snap(&mut h, &after);
